@@ -1305,6 +1305,24 @@ func (c *Conn) greet() {
 	c.writeResponse(220, NoEnhancedCode, fmt.Sprintf("%v %s Service Ready", c.server.Domain, protocol))
 }
 
+// sanitizeReplyText replaces the octets that cannot be part of a reply line
+// (control characters other than HT, and DEL).
+func sanitizeReplyText(s string) string {
+	isCtl := func(ch byte) bool { return (ch < ' ' && ch != '\t') || ch == 0x7f }
+	for i := 0; i < len(s); i++ {
+		if isCtl(s[i]) {
+			b := []byte(s)
+			for j := i; j < len(b); j++ {
+				if isCtl(b[j]) {
+					b[j] = '?'
+				}
+			}
+			return string(b)
+		}
+	}
+	return s
+}
+
 func (c *Conn) writeResponse(code int, enhCode EnhancedCode, text ...string) {
 	// TODO: error handling
 	if c.server.WriteTimeout != 0 {
@@ -1325,6 +1343,12 @@ func (c *Conn) writeResponse(code int, enhCode EnhancedCode, text ...string) {
 
 	// transform each single line with \n, into separate lines
 	text = strings.Split(strings.Join(text, "\n"), "\n")
+
+	// Reply text may echo parts of the peer's command line, which can hold
+	// control characters: a reply line must not (RFC 5321 section 4.2).
+	for i, line := range text {
+		text[i] = sanitizeReplyText(line)
+	}
 
 	lastLineIndex := len(text) - 1
 	for i := 0; i < lastLineIndex; i++ {
